@@ -488,9 +488,13 @@ def truediv(x, y, out=None, out_like=None, sizing='optimal', method='raw', **kwa
         return x / y
 
     def _truediv_raw(x, y, n_frac):
-        precision_cast = (lambda m: np.array(m, dtype=object)) if n_frac >= _n_word_max else (lambda m: m)
-        return (x.val * precision_cast(2**(n_frac - x.n_frac + y.n_frac))) // y.val
-        # return np.floor_divide(np.multiply(x.val, precision_cast(2**(n_frac - x.n_frac + y.n_frac))), y.val)
+        # floor((x.val * 2**shift) / y.val) in integer arithmetic: the dividend (or, for a negative shift, the divisor) is
+        # scaled with Python integers when it needs 64 bits or more (an int64 product would wrap silently)
+        shift = n_frac - x.n_frac + y.n_frac
+        raw_cast = _raw_cast(x, y, max(x.n_word + max(shift, 0), y.n_word + max(-shift, 0)))
+        if shift >= 0:
+            return _raw_array(utils.scale_raw(raw_cast(x.val), shift) // raw_cast(y.val))
+        return _raw_array(raw_cast(x.val) // utils.scale_raw(raw_cast(y.val), -shift))
 
     def _truediv_raw_complex(x, y, n_frac):
         precision_cast = (lambda m: np.array(m, dtype=object)) if n_frac >= _n_word_max else (lambda m: m)
